@@ -198,9 +198,10 @@ type exec struct {
 	peer *h2peer.Peer
 	led  *h2peer.Ledger
 
-	calls           []*call
-	blockedEnd      map[uint32]bool // wire ids of streams finished with howBlockedEnd (client END_STREAM queued behind flow control)
-	serverEndedOpen map[uint32]bool // wire ids of streams the server ended (END_STREAM, no RST) on a live transport while the client had not half-closed
+	calls              []*call
+	blockedEnd         map[uint32]bool // wire ids of streams finished with howBlockedEnd (client END_STREAM queued behind flow control)
+	serverEndedPending []uint32        // ended by the server since the last quiescent point
+	serverEndedOpen    map[uint32]bool // wire ids of streams the server ended (END_STREAM, no RST) on a live transport while the client had not half-closed
 
 	hmu        sync.Mutex
 	parkBudget int
@@ -480,10 +481,7 @@ func (e *exec) finish(c *call, how int) {
 	}
 	if !e.closed && (how == howTrailers || how == howBadStatusTrailers || how == howBadBinTrailersOnly || how == howBadHTTPStatus) {
 		// the server ends a stream the client has not half-closed, on a live transport: the client must reset it
-		if e.serverEndedOpen == nil {
-			e.serverEndedOpen = map[uint32]bool{}
-		}
-		e.serverEndedOpen[id] = true
+		e.serverEndedPending = append(e.serverEndedPending, id)
 	}
 	switch how {
 	case howCancel:
@@ -534,6 +532,17 @@ func (e *exec) finish(c *call, how int) {
 // stepEnd is called at a quiescent point after check: it classifies the
 // scheduling step that just ended and starts the next one.
 func (e *exec) stepEnd() {
+	// a quiescent point with the transport still open: the client has had the chance to reset every stream the
+	// server ended before it
+	if !e.closed {
+		for _, id := range e.serverEndedPending {
+			if e.serverEndedOpen == nil {
+				e.serverEndedOpen = map[uint32]bool{}
+			}
+			e.serverEndedOpen[id] = true
+		}
+		e.serverEndedPending = nil
+	}
 	if e.stepCtxEnd && e.stepRelease && e.stepBlocked >= 2 {
 		e.class(clsCtxEndInReleaseStep)
 	}
